@@ -88,3 +88,7 @@ pub(super) fn render_debug_info(
     write!(f, "{:-^1$}", "", 79).unwrap();
     Ok(())
 }
+
+#[cfg(kani)]
+#[path = "/verif/kani/debug.rs"]
+mod verif_kani;
